@@ -11,7 +11,7 @@ RULE = ("trees with 1-3 groups (sizes 2-4), hard-link sets, symlinks reported wi
         "names, hostile file names (leading/trailing whitespace of several kinds, quotes, backslash, newline, CR, tab, "
         "non-UTF-8, '#', '~', '$'); x report format {text, JSON} x op {remove, link, link --soft, dedupe, move} x "
         "-n {unset, 2} x --priority {unset, bottom, newest} x {no pattern, --name, --keep-name}; `move` also into a target "
-        "directory that already holds files at the destination paths; two trees also with a member rewritten (same length) between `group` and the dedupe command, both run under TZ in {UTC, JST-9, PST8}; real runs. Oracle: "
+        "directory that already holds files at the destination paths; two trees also with a member rewritten (same length) between `group` and the dedupe command, both run under TZ in {UTC, JST-9, PST8}; sequences of two commands on one report (link / link --soft first, then remove / link / link --soft / move with --priority top / bottom, reports with and without -H); real runs. Oracle: "
         "inventory before/after (lstat + sha256, never through fclones): no content digest disappears from regular "
         "files (tree + move target); >= max(1,n) replicas per group completely untouched; nothing outside the reported "
         "groups changes; link/clone ops keep every path readable with the same bytes; move keeps the bytes under the "
@@ -166,6 +166,17 @@ def cases(tier, seed):
                 for tz in (None, "JST-9", "PST8"):
                     out.append({"tree": "s:" + tname, "roots": roots, "gargs": gargs, "entries": entries, "fmt": fmt,
                                 "op": op, "n": None, "prio": None, "pat": None, "stale": True, "tz": tz})
+    # the same report used twice: a first command has already replaced files by links, a second command follows with
+    # other priorities (the report is stale by then: the paths are links younger than the report)
+    for tname, g2 in (("one_group", ["-H"]), ("one_group", []), ("three_groups", ["-H"]), ("hard_links", ["-H"])):
+        if tname not in st:
+            continue
+        roots, gargs, entries = st[tname]
+        for fmt in ("default", "json"):
+            for pre in ("softlink", "link"):
+                for op, prio in (("remove", "top"), ("remove", "bottom"), ("link", "top"), ("softlink", "top"), ("move", "top")):
+                    out.append({"tree": "s:" + tname, "roots": roots, "gargs": gargs + g2, "entries": entries, "fmt": fmt,
+                                "op": op, "n": None, "prio": prio, "pat": None, "pre": pre})
     return out
 
 
@@ -200,6 +211,14 @@ def evaluate(case):
         members = set()
         for g in rep.groups:
             members.update(C.u(p) for p in g["paths"])
+        if case.get("pre"):
+            import time
+            time.sleep(0.03)
+            rp = D.run_dedupe(sc, case["pre"], [], report, target=target)
+            if rp["rc"] != 0:
+                raise C.MachineryError("first command of the sequence failed: %s" % rp["err"][-300:])
+            time.sleep(0.03)
+            feat = dict(feat, second_command_on_same_report=case["pre"])
         if case.get("stale"):
             import time
             time.sleep(0.03)
